@@ -20,8 +20,113 @@ import (
 
 	"github.com/ChainSafe/gossamer/dot/types"
 	"github.com/ChainSafe/gossamer/lib/common"
+	"github.com/ChainSafe/gossamer/lib/runtime"
 	"github.com/ChainSafe/gossamer/pkg/scale"
 )
+
+// vbtGate is a runtime instance whose only live method is Stop: Prune's one call into foreign code (it stops the
+// runtimes of abandoned forks), used as a scheduler gate to start a block import while a finalisation is under way.
+type vbtGate struct {
+	runtime.Instance
+	stop func()
+}
+
+func (g *vbtGate) Stop() {
+	if g.stop != nil {
+		g.stop()
+	}
+}
+
+// vbtConcurrent: the specification's Finalise and Add are atomic actions; a finalisation and the import of a block
+// that overlap in time are therefore one of the two orders, and for an accepted block both orders end in the same
+// tree, the one the specification shows after the two steps.  A twin of the tree (same accepted steps) runs
+// Prune with an AddBlock started from inside it, and must then show that tree.
+func vbtConcurrent(res *vResult, b vBehaviour, si int, prefix []json.RawMessage, base time.Time) {
+	var fin, add vbtStep
+	if json.Unmarshal(b.Steps[si], &fin) != nil || json.Unmarshal(b.Steps[si+1], &add) != nil {
+		return
+	}
+	gen := vbtHeader(common.Hash{}, 0, 0, false, 3)
+	w := &vbtWorld{bt: NewBlockTreeFromRoot(gen), hdr: map[int]*types.Header{0: gen},
+		hash: map[int]common.Hash{0: gen.Hash()}, id: map[common.Hash]int{gen.Hash(): 0},
+		parent: map[int]int{0: -1}, arrival: map[int]time.Time{}}
+	for _, raw := range b.Steps[:si] {
+		var s vbtStep
+		if json.Unmarshal(raw, &s) != nil {
+			return
+		}
+		switch s.O.Op {
+		case "Add":
+			hd := vbtHeader(w.h(s.O.P), s.O.N, s.O.B, s.O.Prim, s.O.Hr)
+			if w.bt.AddBlock(hd, base.Add(time.Duration(s.O.Arr)*time.Second)) != nil {
+				return
+			}
+			w.hdr[s.O.B], w.hash[s.O.B], w.id[hd.Hash()], w.parent[s.O.B] = hd, hd.Hash(), s.O.B, s.O.P
+		case "Finalise":
+			w.bt.Prune(w.h(s.O.B))
+		}
+	}
+	o := add.O
+	hd := vbtHeader(w.h(o.P), o.N, o.B, o.Prim, o.Hr)
+	w.hdr[o.B], w.hash[o.B], w.id[hd.Hash()], w.parent[o.B] = hd, hd.Hash(), o.B, o.P
+	done := make(chan error, 1)
+	started := false
+	gate := &vbtGate{stop: func() {
+		if started {
+			return
+		}
+		started = true
+		fin := make(chan struct{})
+		go func() {
+			done <- w.bt.AddBlock(hd, base.Add(time.Duration(o.Arr)*time.Second))
+			close(fin)
+		}()
+		select {
+		case <-fin:
+		case <-time.After(25 * time.Millisecond):
+		}
+	}}
+	w.bt.StoreRuntime(w.h(fin.O.B), &vbtGate{})
+	var other common.Hash
+	other[0], other[31] = 0xfd, 0x01
+	w.bt.StoreRuntime(other, gate)
+	pm := vTry(func() { w.bt.Prune(w.h(fin.O.B)) })
+	if pm != "" || !started {
+		return // nothing to finalise (root / unknown target): no overlap was produced
+	}
+	var aerr error
+	select {
+	case aerr = <-done:
+	case <-time.After(10 * time.Second):
+		panic("VERIF-INFRA AddBlock started inside Prune did not return")
+	}
+	pf := append(append([]json.RawMessage{}, prefix...), b.Steps[si+1])
+	fail := func(owner, field, exp, got, sig string) {
+		res.Fail(b.ID, si+1, "Finalise||Add", field, exp, got, owner+"/"+sig, pf)
+	}
+	res.Case("Finalise||Add", fmt.Sprintf("%d|%d|%d", fin.O.B, o.B, o.P))
+	ob := add.Obs
+	res.Cmp()
+	if aerr != nil {
+		fail("C15", "AddBlock during Prune", "nil", aerr.Error(), "concurrent/Prune-AddBlock/error")
+		return
+	}
+	if all := w.ids(w.bt.GetAllBlocks()); !vbtEq(vbtSorted(all), ob.Live) {
+		fail("C15", "GetAllBlocks", fmt.Sprint(ob.Live), fmt.Sprint(vbtSorted(all)), "concurrent/Prune-AddBlock/blocks")
+	}
+	res.Cmp()
+	if lv := w.ids(w.bt.Leaves()); !vbtEq(vbtSorted(lv), ob.Leaves) {
+		fail("C15", "Leaves", fmt.Sprint(ob.Leaves), fmt.Sprint(vbtSorted(lv)), "concurrent/Prune-AddBlock/leaves")
+	}
+	res.Cmp()
+	if best := w.bt.BestBlockHash(); best != w.h(ob.Best) {
+		cls := "wrong-leaf"
+		if id, ok := w.id[best]; !ok || !vbtIn(ob.Leaves, id) {
+			cls = "not-a-leaf"
+		}
+		fail("C16", "BestBlockHash", fmt.Sprint(ob.Best), fmt.Sprint(w.ids([]common.Hash{best})), "concurrent/Prune-AddBlock/BestBlockHash/"+cls)
+	}
+}
 
 type vbtOp struct {
 	Op   string `json:"op"`
@@ -240,6 +345,10 @@ func TestVerifBlockTree(t *testing.T) {
 	behs := vLoad(t, vIn(t, "behaviours.txt"))
 	res.Behaviours = len(behs)
 	base := time.Unix(1_700_000_000, 0)
+	concurrentBudget := 120
+	if vEnvStr("VERIF_TIER", "quick") == "thorough" {
+		concurrentBudget = 2000
+	}
 
 	for _, b := range behs {
 		gen := vbtHeader(common.Hash{}, 0, 0, false, 3)
@@ -262,6 +371,13 @@ func TestVerifBlockTree(t *testing.T) {
 				res.Sample(map[string]any{"behaviour": b.ID, "last_step": s.O, "res": s.Res, "live": s.Obs.Live, "best": s.Obs.Best})
 			}
 			o := s.O
+			if o.Op == "Finalise" && si+1 < len(b.Steps) && concurrentBudget > 0 {
+				var nx vbtStep
+				if json.Unmarshal(b.Steps[si+1], &nx) == nil && nx.O.Op == "Add" {
+					concurrentBudget--
+					vbtConcurrent(res, b, si, prefix, base)
+				}
+			}
 			fail := func(owner, field, exp, got, sig string) {
 				res.Fail(b.ID, si, o.Op, field, exp, got, owner+"/"+sig, prefix)
 			}
